@@ -49,6 +49,11 @@ def scn_names(params):
             except proto.ParseError:
                 continue            # C10 judges well-formedness
             n = sum(len(x) for x in labels) + max(len(labels) - 1, 0)
+            if not labels or labels[0][:1].lower() not in b"0123456789abcdefrpvln":
+                # the limit is stated for data chunks, fragment-size probes, pings and the version / login / set-fragment-size
+                # messages; the fixed test patterns of the codec checks (z, y) and the short s / o / i requests are not in it
+                out["stats"]["client_queries_outside_the_statement"] = out["stats"].get("client_queries_outside_the_statement", 0) + 1
+                continue
             out["stats"]["client_queries_checked"] += 1
             out["evaluations"] += 1
             longest = max(longest, n)
@@ -135,6 +140,20 @@ def run(ctx):
                            opt_shuffle=rng.getrandbits(16))
                 if cfg["qtype"] in ("CNAME", "A") and cfg["m"] and cfg["m"] > 100:
                     cfg["m"] = 100
+                if i % 4 == 1:
+                    # longer tunnel domains (up to L - 24 characters) and numbers written the way scripts write them
+                    lab = lambda n: "".join(rng.choice("abcdefghijklmnopqrstuvwxyz0123456789") for _ in range(n))
+                    dlen = rng.choice([40, 57, 60, 70, 76]) if cfg["M"] < 150 else rng.choice([57, 76, 100, 120])
+                    dlen = min(dlen, cfg["M"] - 24, 128)
+                    parts, left = [], dlen - 4
+                    while left > 0:
+                        n_ = min(left, rng.choice([20, 40, 63]))
+                        if left - n_ == 1:
+                            n_ -= 1
+                        parts.append(lab(max(1, n_)))
+                        left -= n_ + 1
+                    cfg["domain"] = ".".join(parts + ["org"])
+                    cfg["M_spelling"] = rng.choice(["0%d", "00%d", "%d", "+%d", " %d"]) % cfg["M"]
                 plist.append({"idx": i, "seed": ctx.seed * 100000 + i, "cfg": cfg})
             sysres = core.Result()
             simrun.run_scenarios(sysres, b, scn_names, plist, jobs=ctx.jobs)
